@@ -1,10 +1,12 @@
 use crate::util::Ctx;
+pub mod c12;
 pub mod c15;
 pub mod c16;
 pub mod c20;
 
 pub fn dispatch(ctx: &Ctx) -> i32 {
     match ctx.id.as_str() {
+        "C12" => c12::run(ctx),
         "C15" => c15::run(ctx),
         "C16" => c16::run(ctx),
         "C20" => c20::run(ctx),
